@@ -647,6 +647,21 @@ def centre_plane(check, prog):
                       'comes out as [0, 32] for [73, 41]' % show(bad[0])[:100]
                       if bad else '')
     gs = [c for c in it.calls if c['name'] == 'scipy.ndimage.gaussian_filter']
+    # ... and no filter writes its result into the image (or a view of it: the
+    # copy above is shallow, and isel / transpose give views): `output=` of the
+    # SciPy filters names the array to overwrite
+    for c in it.calls:
+        if not c['name'].startswith('scipy.ndimage.'):
+            continue
+        out = dict(c['kwargs']).get('output')
+        aliased = out is not None and any(x == image for x in subterms(out))
+        check.require(not aliased, 'T9-centre-input-untouched',
+                      'center_find %s' % c['name'].rpartition('.')[2],
+                      'the image handed to center_find keeps its pixel values', loc,
+                      fail_detail='output=%s is the image\'s own storage: the hologram '
+                      'is blurred in place, and the next call on it (make_center_priors '
+                      'after center_find) finds another centre' % (
+                          show(out)[:60] if out else ''))
     for c in gs:
         src = c['args'][0] if c['args'] else None
         sigma = c['args'][1] if len(c['args']) > 1 else dict(c['kwargs']).get('sigma')
